@@ -679,13 +679,29 @@ func (e *httpEngine) fail(ws []string, o *Out) string {
 	if path != "fwd" && (kind == "noupstream-remote" || kind == "deadnode") {
 		return "bad-op"
 	}
-	e.cur.rec.set(b)
 	raw := "GET /x HTTP/1.1\r\nHost: 127.0.0.1\r\n" + hdr
 	if ep != "" {
 		raw += "x-piko-endpoint: " + ep + "\r\n"
 	}
 	raw += "\r\n"
-	resp := do(e.addr(path), "GET", []byte(raw), T+8*time.Second)
+	var resp clientResp
+	for attempt := 0; ; attempt++ {
+		e.cur.rec.set(b)
+		resp = do(e.addr(path), "GET", []byte(raw), T+8*time.Second)
+		// Scheduling noise: on a starved machine the proxy itself may need longer than the 300 ms
+		// timeout, and then a 504 is the correct answer even for a fast upstream; likewise the
+		// no-hang bound can be missed.  Such an attempt is recognisable by its wall time (a 504
+		// that arrives only after the timeout has really elapsed; an answer later than timeout
+		// + 2 s) and is repeated; a 504 that arrives before the timeout, or an anomaly that
+		// persists over 4 attempts, is reported.
+		starved := expect != 504 && resp.status == 504 && resp.wall >= T
+		late := resp.wall >= T+2*time.Second
+		if !(starved || late) || attempt >= 3 {
+			break
+		}
+		o.Count("timing:retry")
+		time.Sleep(time.Duration(50*(attempt+1)) * time.Millisecond)
+	}
 	o.Count("oracle:C08:fail")
 	o.Count("fail:" + kind)
 	hang := resp.wall >= T+2*time.Second
